@@ -201,6 +201,9 @@ func suiteDedup(e *vh.Env) {
 			if longIDs {
 				return fmt.Sprintf("%032x%032x", i+1, k)
 			}
+			if i%3 == 1 {
+				return fmt.Sprintf("Req-%d-%X", i, 0xAB00+k) // letter case is part of an ID
+			}
 			return fmt.Sprintf("r%d-%d", i, k)
 		}
 		repeats := false
@@ -249,8 +252,29 @@ func suiteDedup(e *vh.Env) {
 			}
 			fp.lists = append(fp.lists, ids)
 		}
+		turnover := i == 2
+		if turnover {
+			// a full window of pending requests with turnover: one is answered, a new one arrives and is listed first
+			universe = requestCacheLimit + 1
+			fp.lists, fp.listFail, repeats = nil, nil, true
+			seen = map[string]bool{}
+			var first, second []string
+			for k := 0; k < requestCacheLimit; k++ {
+				first = append(first, id(k))
+			}
+			second = append(second, id(requestCacheLimit))
+			for k := 0; k < requestCacheLimit; k++ {
+				if k != requestCacheLimit/2 {
+					second = append(second, id(k))
+				}
+			}
+			fp.lists = [][]string{first, second}
+			for _, x := range append(append([]string{}, first...), second...) {
+				seen[x] = true
+			}
+		}
 		for x := range seen {
-			if rng.Chance(15) {
+			if rng.Chance(15) && !turnover {
 				fp.fetchFail[x] = 1 + rng.Intn(3) // 3 = all attempts fail: never forwarded
 			}
 		}
@@ -295,6 +319,7 @@ func suiteDedup(e *vh.Env) {
 		}
 		// spawned = IDs with at least one fetch; each spawn makes 1 + min(fail, 2) attempts
 		var spawned []string
+		twice := 0
 		fp.mu.Lock()
 		h.mu.Lock()
 		for x, c := range fp.fetches {
@@ -326,6 +351,9 @@ func suiteDedup(e *vh.Env) {
 			if ff > utils.VerifMaxReadRequestRetryCount {
 				want = 0
 			}
+			if turnover && h.calls[x] > 1 {
+				twice++
+			}
 			inWindow := universe <= requestCacheLimit
 			if inv > 1 && inWindow {
 				e.Fail("C04:forwarded-twice", fmt.Sprintf("request %s reached the backend %d times (universe %d ids)", x, inv, universe), i, nil, inv, 1)
@@ -336,6 +364,9 @@ func suiteDedup(e *vh.Env) {
 			if want == 1 && fp.uploadCnt[x] != inv {
 				e.Fail("C04:upload-count", fmt.Sprintf("request %s: %d uploads for %d invocations", x, fp.uploadCnt[x], inv), i, nil, nil, nil)
 			}
+		}
+		if turnover && twice > 0 {
+			e.Fail("C04:forwarded-twice:window-turnover", fmt.Sprintf("%d requests were pending and listed; one was answered and a new one arrived (still %d pending), the next reply listed the new one first: %d of the pending requests reached the backend a second time", requestCacheLimit, requestCacheLimit, twice), i, nil, twice, 0)
 		}
 		for x := range seen {
 			if fp.fetches[x] == 0 {
